@@ -334,15 +334,25 @@ fn episode(ctx: &Ctx, case: u64, out: &mut Out) {
     let fault_at = if case % 4 == 1 {
         // half of the time inside a merge pass (its calls are many: up to the 16th), else anywhere
         let merges: Vec<usize> = plan.ops.iter().enumerate().filter(|(_, o)| matches!(o, POp::Merge)).map(|(i, _)| i).collect();
-        let (at, nth) = if !merges.is_empty() && r.chance(1, 2) { (*r.pick(&merges), r.below(16) as i64) } else { (r.below(plan.ops.len() as u64) as usize, r.below(5) as i64) };
-        Some((at, nth, if r.chance(1, 2) { libc::ENOSPC } else { libc::EIO }))
+        // (a third of those on one of the pass's unlink calls: they come last, after any number of
+        // writes and syncs)
+        let (at, nth, cls) = if !merges.is_empty() && r.chance(1, 2) {
+            if r.chance(1, 3) {
+                (*r.pick(&merges), r.below(6) as i64, C_UNLINK)
+            } else {
+                (*r.pick(&merges), r.below(16) as i64, C_CREATE | C_WRITE | C_FSYNC | C_UNLINK)
+            }
+        } else {
+            (r.below(plan.ops.len() as u64) as usize, r.below(5) as i64, C_CREATE | C_WRITE | C_FSYNC | C_UNLINK)
+        };
+        Some((at, nth, if r.chance(1, 2) { libc::ENOSPC } else { libc::EIO }, cls))
     } else {
         None
     };
     let rec = run_recorded(&dir, &plan, true, |i| {
-        if let Some((at, nth, errno)) = fault_at {
+        if let Some((at, nth, errno, cls)) = fault_at {
             if i == at {
-                crate::shim::fail(C_CREATE | C_WRITE | C_FSYNC | C_UNLINK, F_ANY, nth, errno);
+                crate::shim::fail(cls, F_ANY, nth, errno);
             }
         }
     });
